@@ -258,7 +258,8 @@ pub fn run(args: &[String]) -> String {
                             a == b
                         }
                         8 | 9 => {
-                            let w = ((r >> 8) & 0x7FF) as u16;
+                            // one word in four over the whole u16 domain (bits 11..15 set)
+                            let w = if r & 0xC0 == 0 { (r >> 8) as u16 } else { ((r >> 8) & 0x7FF) as u16 };
                             let a = kb.add_word(w);
                             let b = match p.add_word(w) {
                                 Ok(byte) => s.advance_state(byte),
@@ -354,6 +355,12 @@ pub fn run(args: &[String]) -> String {
                                 for w in 0u16..2048 {
                                     ops.push((1, w));
                                 }
+                                if pre_bits == 0 && bits == 0 && probe == 0x1C {
+                                    // every word with any of the bits 11..15 set, once per prefix state
+                                    for w in 2048u32..65536 {
+                                        ops.push((1, w as u16));
+                                    }
+                                }
                                 for b in 0u16..256 {
                                     ops.push((2, b));
                                 }
@@ -372,7 +379,7 @@ pub fn run(args: &[String]) -> String {
                     }
                 }
             }
-            "HOLDS bound: 11 pending-bit counts x 3 bit patterns x 7 prefix states x 4 probe bytes x every operation (2 bits, 2048 words, 256 bytes, clear, 372 key events, 2 modes)".into()
+            "HOLDS bound: 11 pending-bit counts x 3 bit patterns x 7 prefix states x 4 probe bytes x every operation (2 bits, 2048 words, 256 bytes, clear, 372 key events, 2 modes); all 65536 words from the 7 prefix states with no bits pending".into()
         }
         // long pseudo-random histories compared step by step with the executable specification: functional defects that
         // need hundreds of steps to show (a counter that wraps, a cache that goes stale)
@@ -396,7 +403,10 @@ pub fn run(args: &[String]) -> String {
                         let mut i = 0u64;
                         while i < steps {
                             let r = next();
-                            if r % 997 == 0 {
+                            // second half of the run: whole frames only and no clear() at all, so that the decoder sees an
+                            // uninterrupted stream of more than 2^16 bits (free-running counters)
+                            let steady = i >= steps / 2;
+                            if r % 997 == 0 && !steady {
                                 d.clear();
                                 st = (0, 0);
                             }
@@ -406,7 +416,7 @@ pub fn run(args: &[String]) -> String {
                             if r % 13 == 0 {
                                 w ^= 1 << ((r >> 16) % 11);
                             }
-                            let nb = if r % 101 == 0 { (r >> 20) % 11 } else { 11 };
+                            let nb = if r % 101 == 0 && !steady { (r >> 20) % 11 } else { 11 };
                             for k in 0..nb {
                                 let b = (w >> k) & 1 != 0;
                                 let got = d.add_bit(b);
